@@ -158,12 +158,17 @@ let spec input obs =
     (match Config.load_files_spec tbl env sel dflt with
      | None ->
        if obs = "LOAD-ERROR" then "OK"
-       else if Stdlib.List.exists (fun (_, v) -> v = String.EmptyString) env
-               && Config.load_files_model tbl env sel dflt <> None
-       then "FAIL env-empty-ignored an empty variable of a non-string key is skipped instead of refused"
-       else "FAIL ill-typed-value-accepted got " ^ obs
+       else
+         (* WHY the contract refuses (C20_load_refuses_iff): an ill-typed winning value, or a log level zerolog
+            does not know *)
+         (match Config.load_refusal (Config.env_of_spec tbl) tbl env file with
+          | Some Config.BadLogLevel -> "FAIL invalid-logging-accepted got " ^ obs
+          | _ -> "FAIL ill-typed-value-accepted got " ^ obs)
      | Some cfg ->
-       if obs = "LOAD-ERROR" then "FAIL load-refused-valid-sources" else
+       if obs = "LOAD-ERROR" then
+         (if Stdlib.List.exists (fun (_, v) -> v = String.EmptyString) env
+          then "FAIL load-refused-valid-sources a blank variable must never make Load fail"
+          else "FAIL load-refused-valid-sources") else
        let got = assoc_of_obs obs in
        let bad = ref None in
        Stdlib.List.iter (fun (k, v) ->
@@ -173,7 +178,12 @@ let spec input obs =
              if g <> Some v then begin
                let var = Config.env_name (cs_of_string k) in
                let cls = match Config.lookup env var with
-                 | Some String.EmptyString -> "env-empty-ignored"
+                 | Some String.EmptyString ->
+                   (* a blank variable: for a string-typed key the contract says the key becomes empty (the code
+                      ignores it: the known finding); for any other type the empty text is no value of the
+                      type and the file or the default must be in force *)
+                   if Config.stringy (Config.type_of tbl (cs_of_string k)) then "env-empty-ignored"
+                   else "blank-env-not-ignored"
                  | Some _ -> "env-not-effective"
                  | None ->
                    (match Config.lookup file (cs_of_string k) with
